@@ -666,10 +666,29 @@ def rule_lzma_header(facts):
     sw = [blk for blk in b.blocks if not blk.cleanup and blk.term.k == "switch" and pat.has_field(tm.of_operand(blk.term.discr), "unpacked_size")
           and tm.of_operand(blk.term.discr)[0] == "discr"]
     adtu = facts.adt("encode::options::UnpackedSize")
+    # the switch on the option enum itself (not on the Option inside it), found by the type of the discriminated place
+    by_ty = []
+    for blk in sw:
+        dl = blk.term.discr.place.local if blk.term.discr.place is not None and not blk.term.discr.place.proj else None
+        for b2 in b.blocks:
+            for st_ in b2.stmts:
+                if st_.k == "assign" and not st_.place.proj and st_.place.local == dl and st_.rv.k == "discriminant":
+                    ty_ = st_.rv.place.ty
+                    while ty_ is not None and ty_.k == "ref":
+                        ty_ = ty_.to
+                    if ty_ is not None and ty_.k == "adt" and (ty_.name or "").endswith("UnpackedSize"):
+                        by_ty.append(blk)
+    if by_ty:
+        sw = by_ty
     if sw and adtu:
         names = {i: v["name"].split("::")[-1] for i, v in enumerate(adtu["variants"])}
         arms = {names.get(v): t for v, t in sw[0].term.targets}
         wt, sk = arms.get("WriteToHeader"), arms.get("SkipWritingToHeader")
+        # `if let` leaves one of the two variants to the `otherwise` edge
+        if wt is None and sk is not None:
+            wt = sw[0].term.otherwise
+        if sk is None and wt is not None:
+            sk = sw[0].term.otherwise
         if wt is not None and sk is not None and c.dominates(wt, w64[0].idx) and w64[0].idx not in c.reachable_from(sk, avoid=[wt]):
             r.ok("control-dependence", {"u64 size": "written iff WriteToHeader"})
         else:
